@@ -220,7 +220,7 @@ pub fn c09(tier: Tier, replay: Option<String>) -> i32 {
         "E-hist histories over schemas with PRIMARY KEY / UNIQUE (single column), NOT NULL, column CHECKs (comparisons with = <> < <= > >= joined by AND/OR over numeric and text          columns) and FOREIGN KEYs to the first table's integer key (NO ACTION / RESTRICT / CASCADE); key updates, delete-then-reinsert of the same key, parent deletes, transactions.          Oracle (both directions): a write is accepted iff the relational model says the resulting state satisfies every declared constraint (CHECK passes unless FALSE under          three-valued logic). Non-trivial = the history contains at least one rejected and one accepted INSERT/UPDATE; distinct by hash of schema+ops.",
     );
     ctx.assume("NULL primary keys, statements whose verdict depends on row-at-a-time vs end-of-statement checking, TRUNCATE/DROP of FK parents and ON DELETE SET NULL (documented as not implemented by its error message) are not generated");
-    let p = Profile { max_tables: 3, max_ops: 30, txn: 2, dml: 12, truncate: 1, allow_check: true, allow_fk: true, ..Profile::default() };
+    let p = Profile { max_tables: 3, max_ops: 30, txn: 2, dml: 12, truncate: 1, allow_check: true, allow_fk: true, prefill: true, ..Profile::default() };
     let cases = tier.pick(3000, 120_000);
     drive_hist(&ctx, &check, move || case_strategy(p.clone(), None, false), cases)
 }
@@ -264,7 +264,7 @@ pub fn c21(tier: Tier, replay: Option<String>) -> i32 {
         "E-hist histories interleaving CREATE/DROP TABLE, CREATE/DROP INDEX, TRUNCATE and ALTER TABLE ADD / DROP / RENAME COLUMN with DML and close+reopen. Oracle: the relational          model predicts every table's column set and rows (defaults for new rows of added columns, preserved values after DROP/RENAME COLUMN, emptied tables after TRUNCATE,          backfilled indexes answering probes, dropped objects gone) after every statement and after reopen. Non-trivial = at least one schema change and a reopen after DML in          the same history; distinct by hash of schema+ops.",
     );
     ctx.assume("ADD COLUMN with a DEFAULT on a table that already has rows is not generated (the property allows default or NULL for existing rows); dropping key/indexed columns is not generated");
-    let p = Profile { max_tables: 2, max_ops: 30, ddl: 6, dml: 10, lifecycle: 2, truncate: 1, ..Profile::default() };
+    let p = Profile { max_tables: 2, max_ops: 30, ddl: 6, dml: 10, lifecycle: 2, truncate: 1, prefill: true, ..Profile::default() };
     let cases = tier.pick(3000, 120_000);
     drive_hist(&ctx, &check, move || case_strategy(p.clone(), None, false), cases)
 }
